@@ -646,6 +646,10 @@ func Expect(op Op, p St, res Result) []Alt {
 		if res.CasArg != want {
 			return []Alt{fail("cas-refused", failCas...)}
 		}
+		if op.MetaCas == "huge" {
+			// a CAS of 2^63 or more cannot be stored: any error, nothing changed, nothing announced
+			return []Alt{{Name: "meta-refused", AnyErr: true, Same: true}}
+		}
 		a := Alt{Name: "meta-written", Body: op.Body, BodyNil: op.K == "DeleteWithMeta", X: XExp{Keep: copyMap(op.X)}, ExpLo: res.ExpArg, ExpHi: res.ExpArg, CasExact: res.MetaCasArg, Event: true, NoRetCas: true}
 		return []Alt{a}
 
